@@ -100,7 +100,7 @@ UNIT = {
          ]},
         # the names bindgen itself vouches for on blocklisted types (unit vouch) are exactly the ones it maps to primitives
         {"kind": "fn", "file": "bindgen/ir/context.rs", "name": "is_stdint_type", "impl": r"^impl BindgenContext$", "impl_header": "impl BindgenContext", "impl_name": "BindgenContext", "ret": "r",
-         "subst": [("self.options.size_t_is_usize", "self.options().size_t_is_usize", 1, "R5 field read")],
+         "subst": [("self.options.size_t_is_usize", "self.options().size_t_is_usize", 0, "R5 field read (if present)")],
          "proof_start": REVEAL,
          "ensures": ["r == std_typedef(name, self.spec_options().size_t_is_usize).is_some()"]},
         {"kind": "fn", "file": "bindgen/codegen/mod.rs", "name": "type_from_named", "ret": "r",
